@@ -557,3 +557,176 @@ Proof.
     + rewrite (H2 Hne Hr) in H. inversion H; subst x. apply index_inv_add. exact Hinv.
     + destruct (H3 Hne Hr) as [g2 [Hg2 [Hi2 _]]]. rewrite Hg2 in H. inversion H; subst x. exact Hi2.
 Qed.
+
+(* ====================================================================== *)
+(* Step.v *)
+(* ================= sort ================= *)
+Lemma rebuild_index_gen : forall ns k ix q, NoDup (map nid ns) ->
+  idx_get (fold_left (fun ix kn => idx_insert ix (nid (snd kn)) (fst kn)) (enumerate_from k ns) ix) q =
+    match position q (map nid ns) with Some j => Some (k + j)%nat | None => idx_get ix q end.
+Proof.
+  induction ns as [|n r IH]; intros k ix q Hnd; cbn [enumerate_from fold_left map position fst snd]; [reflexivity|].
+  cbn [map] in Hnd. inversion Hnd as [|? ? Hn Hr]; subst. rewrite (IH (S k) _ q Hr), idx_get_insert.
+  destruct (Z.eqb (nid n) q) eqn:Hq.
+  - apply Z.eqb_eq in Hq. subst q. apply position_None in Hn. rewrite Hn. f_equal. lia.
+  - destruct (position q (map nid r)); cbn [option_map]; [f_equal; lia|reflexivity].
+Qed.
+Lemma rebuild_index_spec : forall ns q, NoDup (map nid ns) ->
+  idx_get (rebuild_index ns) q = position q (map nid ns).
+Proof.
+  intros ns q Hnd. unfold rebuild_index. rewrite (rebuild_index_gen ns 0 [] q Hnd).
+  destruct (position q (map nid ns)); reflexivity.
+Qed.
+
+Lemma sort_total : forall g, exists x, sort g = Ok x.
+Proof.
+  intros g. unfold sort, sort_gen. destruct (tsort (nodes g)) as [r| |] eqn:Ht.
+  - cbn [bind]. destruct r; eexists; reflexivity.
+  - exfalso. eapply ProofsTsort.tsort_no_panic. exact Ht.
+  - exfalso. eapply ProofsTsort.tsort_no_fuel. exact Ht.
+Qed.
+
+Lemma sort_spec : forall g x, index_inv g -> sort g = Ok x ->
+  (exists e, tsort (nodes g) = Ok (inl e) /\ x = (Some e, g)) \/
+  (exists ns, tsort (nodes g) = Ok (inr ns) /\ x = (None, {| nodes := ns; index := rebuild_index ns |}) /\
+              Permutation ns (nodes g) /\ before_all (map nid ns) (edges_of (nodes g)) [] = true).
+Proof.
+  intros g x [Hnd Hi] H. unfold sort, sort_gen in H. destruct (tsort (nodes g)) as [r| |] eqn:Ht; try discriminate.
+  cbn [bind] in H. destruct r as [e|ns]; inversion H; subst x.
+  - left. exists e. auto.
+  - right. exists ns. destruct (ProofsTsort.tsort_sound (nodes g) ns Hnd Ht) as [Hp Hb]. auto.
+Qed.
+
+Lemma index_inv_sort : forall g x, index_inv g -> sort g = Ok x -> index_inv (snd x).
+Proof.
+  intros g x Hinv H. destruct (sort_spec g x Hinv H) as [[e [_ ->]]|[ns [_ [-> [Hp _]]]]]; cbn [snd]; [exact Hinv|].
+  assert (Hnd : NoDup (map nid ns)).
+  { eapply Permutation_NoDup; [apply Permutation_map, Permutation_sym; exact Hp|exact (proj1 Hinv)]. }
+  split; cbn [nodes index]; [exact Hnd|]. intros q. apply rebuild_index_spec. exact Hnd.
+Qed.
+
+(* ================= step ================= *)
+Lemma inc_ref_total : forall g r d, index_inv g -> exists x, inc_ref g r d = Ok x.
+Proof.
+  intros g r d Hinv. destruct (inc_ref_spec g r d Hinv) as [H1 [H2 H3]].
+  destruct (Z.eq_dec r d) as [Heq|Hne]; [eexists; apply H1; exact Heq|].
+  destruct (reach_dec (edges_of (nodes g)) d r) as [Hr|Hr].
+  - eexists. apply H2; assumption.
+  - destruct (H3 Hne Hr) as [g2 [Hg2 _]]. eexists. exact Hg2.
+Qed.
+Lemma remove_total : forall g p, index_inv g -> exists g', remove g p = Ok g'.
+Proof.
+  intros g p Hinv. pose proof (remove_no_panic g p Hinv) as Hp. unfold remove in *.
+  destruct (idx_get (index g) p); [|eexists; reflexivity].
+  destruct (Nat.ltb n (length (nodes g))); [eexists; reflexivity|congruence].
+Qed.
+
+Lemma step_total : forall g o, index_inv g -> exists x, step g o = Ok x.
+Proof.
+  intros g o Hinv. destruct o as [p|r d|p|a b|]; cbn [step].
+  - eexists; reflexivity.
+  - destruct (inc_ref_total g r d Hinv) as [x ->]. eexists; reflexivity.
+  - destruct (remove_total g p Hinv) as [x ->]. eexists; reflexivity.
+  - eexists; reflexivity.
+  - destruct (sort_total g) as [x ->]. eexists; reflexivity.
+Qed.
+
+Lemma step_no_panic_l : forall g o, index_inv g -> step g o <> Panic.
+Proof. intros g o Hinv. destruct (step_total g o Hinv) as [x ->]. discriminate. Qed.
+Lemma step_no_fuel_l : forall g o, index_inv g -> step g o <> Fuel.
+Proof. intros g o Hinv. destruct (step_total g o Hinv) as [x ->]. discriminate. Qed.
+
+Lemma index_inv_step : forall g o x, index_inv g -> op_ok g o = true -> step g o = Ok x -> index_inv (snd x).
+Proof.
+  intros g o x Hinv Hok H. destruct o as [p|r d|p|a b|]; cbn [step] in H.
+  - inversion H; subst x. apply index_inv_add. exact Hinv.
+  - destruct (inc_ref g r d) as [y| |] eqn:Hy; try discriminate. cbn [bind] in H. inversion H; subst x.
+    cbn [snd]. eapply index_inv_inc; eassumption.
+  - destruct (remove g p) as [y| |] eqn:Hy; try discriminate. cbn [bind] in H. inversion H; subst x.
+    cbn [snd]. eapply index_inv_remove; eassumption.
+  - inversion H; subst x. apply index_inv_rename; assumption.
+  - destruct (sort g) as [y| |] eqn:Hy; try discriminate. cbn [bind] in H. inversion H; subst x.
+    cbn [snd]. eapply index_inv_sort; eassumption.
+Qed.
+
+(* ================= histories ================= *)
+Lemma run_ops_inv : forall os g, index_inv g -> hist_ok g os = true ->
+  exists g', run_ops g os = Ok g' /\ index_inv g'.
+Proof.
+  induction os as [|o os IH]; intros g Hinv Hok; cbn [run_ops].
+  - exists g. auto.
+  - cbn [hist_ok] in Hok. apply andb_true_iff in Hok. destruct Hok as [Ho Hr].
+    destruct (step_total g o Hinv) as [x Hx]. rewrite Hx in *. cbn [bind].
+    apply IH; [eapply index_inv_step; eassumption|exact Hr].
+Qed.
+
+Lemma run_ops_empty_inv : forall os, hist_ok empty os = true ->
+  exists g, run_ops empty os = Ok g /\ index_inv g.
+Proof. intros os H. apply run_ops_inv; [apply index_inv_empty|exact H]. Qed.
+
+(* ================= ancestors: fuel ================= *)
+Definition anc_each (f : nat) (g : graph) :=
+  fix each (ps : list Z) (anc vis : list Z) {struct ps} : res (list Z * list Z) :=
+    match ps with
+    | [] => Ok (anc, vis)
+    | q :: ps' =>
+      if memz q anc then each ps' anc vis
+      else do r <- ancestors_ f g q (anc ++ [q]) vis; each ps' (fst r) (snd r)
+    end.
+Lemma anc_unfold : forall f g p anc vis,
+  ancestors_ (S f) g p anc vis =
+    if memz p vis then Ok (anc, vis)
+    else do on <- get_node g p;
+         match on with
+         | None => Ok (anc, p :: vis)
+         | Some n => anc_each f g (ndeps n) anc (p :: vis)
+         end.
+Proof. reflexivity. Qed.
+Lemma anc_each_cons : forall f g q ps anc vis,
+  anc_each f g (q :: ps) anc vis =
+    if memz q anc then anc_each f g ps anc vis
+    else do r <- ancestors_ f g q (anc ++ [q]) vis; anc_each f g ps (fst r) (snd r).
+Proof. reflexivity. Qed.
+
+Lemma ancestors_total_ : forall g, index_inv g -> forall f p anc vis, (cnt g vis < f)%nat ->
+  exists anc' vis', ancestors_ f g p anc vis = Ok (anc', vis') /\ incl vis vis'.
+Proof.
+  intros g Hinv. induction f as [|f IHf]; intros p anc vis Hc; [lia|].
+  rewrite anc_unfold. destruct (memz p vis) eqn:Hpv.
+  - exists anc, vis. split; [reflexivity|apply incl_refl].
+  - apply memz_false in Hpv. rewrite (get_node_spec g p Hinv). cbn [bind].
+    destruct (find_node (nodes g) p) as [n|] eqn:Hf.
+    + assert (Hpin : In p (map nid (nodes g))).
+      { apply find_node_Some in Hf. destruct Hf as [Hn Hid]. rewrite <- Hid. apply in_map. exact Hn. }
+      assert (Hc' : (cnt g (p :: vis) < f)%nat) by (pose proof (cnt_cons g p vis Hpin Hpv); lia).
+      assert (Hloop : forall ps anc1 vis1, (cnt g vis1 < f)%nat ->
+                exists anc' vis', anc_each f g ps anc1 vis1 = Ok (anc', vis') /\ incl vis1 vis').
+      { induction ps as [|q ps IHps]; intros anc1 vis1 Hc1.
+        - exists anc1, vis1. split; [reflexivity|apply incl_refl].
+        - rewrite anc_each_cons. destruct (memz q anc1); [apply IHps; exact Hc1|].
+          destruct (IHf q (anc1 ++ [q]) vis1 Hc1) as [a2 [v2 [H2 Hi2]]]. rewrite H2. cbn [bind fst snd].
+          assert (Hc2 : (cnt g v2 < f)%nat) by (pose proof (cnt_mono g vis1 v2 Hi2); lia).
+          destruct (IHps a2 v2 Hc2) as [a3 [v3 [H3 Hi3]]]. exists a3, v3. split; [exact H3|].
+          eapply incl_tran; eassumption. }
+      destruct (Hloop (ndeps n) anc (p :: vis) Hc') as [a' [v' [H Hi]]]. exists a', v'. split; [exact H|].
+      intros x Hx. apply Hi. right. exact Hx.
+    + exists anc, (p :: vis). split; [reflexivity|apply incl_tl, incl_refl].
+Qed.
+
+Lemma ancestors_total : forall g p, index_inv g -> exists l, ancestors g p = Ok l.
+Proof.
+  intros g p Hinv. unfold ancestors.
+  assert (Hc : (cnt g [] < fuel_of g)%nat) by (unfold fuel_of; pose proof (cnt_le g []); lia).
+  destruct (ancestors_total_ g Hinv (fuel_of g) p [] [] Hc) as [a [v [H _]]]. rewrite H. eexists; reflexivity.
+Qed.
+
+Lemma fuel_enough_l : forall g, index_inv g ->
+  (forall a b, deep_depends_on g a b <> Fuel) /\ (forall p, ancestors g p <> Fuel) /\ tsort (nodes g) <> Fuel /\
+  (forall o, step g o <> Fuel).
+Proof.
+  intros g Hinv. split; [|split; [|split]].
+  - intros a b. destruct (deep_depends_on_total g b Hinv a) as [r [-> _]]. discriminate.
+  - intros p. destruct (ancestors_total g p Hinv) as [l ->]. discriminate.
+  - apply ProofsTsort.tsort_no_fuel.
+  - intros o. apply step_no_fuel_l. exact Hinv.
+Qed.
